@@ -578,12 +578,59 @@ func TestC10(t *testing.T) {
 		c.Answer = rapid.SampledFrom([]string{"y\n", "Y\n", " y \n", "n\n", "\n", "yes\n", "x\n", "", "y", "N\n", "\ty\r\n"}).Draw(t, "answer")
 		c.Edit = rapid.Bool().Draw(t, "edit")
 		c.Scenario = rapid.SampledFrom([]string{"", "", "edit-root-add-leaf", "sec1-key", "root-pem-deleted", "root-cert-stripped", "edit-old-mtime", "edit-old-mtime"}).Draw(t, "scenario")
+		if rapid.IntRange(0, 3).Draw(t, "focus") == 0 {
+			// one optional reason switched on, the two default ones left alone or switched off explicitly: what is not
+			// mentioned keeps its default, whatever else is on the command line
+			focus := rapid.SampledFrom([]struct {
+				bit  int
+				args []string
+			}{{core.FlagNewer, []string{"-o"}}, {core.FlagNewer, []string{"--generate-outdated"}}, {core.FlagExpired, []string{"-e"}}, {core.FlagAll, []string{"-a"}}, {core.FlagAll, []string{"--generate-all=true"}}}).Draw(t, "focus-flag")
+			c.Args, c.Flags = append([]string{}, focus.args...), focus.bit|core.FlagMissing|core.FlagChanged
+			switch rapid.IntRange(0, 3).Draw(t, "focus-defaults") {
+			case 1:
+				c.Args, c.Flags = append(c.Args, "-m=false", "-c=false"), focus.bit
+			case 2:
+				c.Args, c.Flags = append(c.Args, "--generate-changed=false"), focus.bit|core.FlagMissing
+			case 3:
+				c.Args, c.Flags = append([]string{"-m=false"}, c.Args...), focus.bit|core.FlagChanged
+			}
+		}
 		if c.Scenario == "sec1-key" && rapid.Bool().Draw(t, "root-only") {
 			c.W.Ents = c.W.Ents[:1] // no other entity whose replacement would trigger the prompt anyway
 			c.Edit = false
 		}
 		return c
 	}
-	core.Rapid(r, "cli", r.Pick(120, 6000), genCLI, wrapCLI)
+	// a fixed matrix in front of the sampled part: every scenario x curated flag sets (each optional reason alone, with the
+	// defaults left alone / switched off) x {consent, refusal}
+	{
+		type fs struct {
+			args  []string
+			flags int
+		}
+		sets := []fs{{nil, core.FlagDefault}, {[]string{"-o"}, core.FlagDefault | core.FlagNewer}, {[]string{"--generate-outdated"}, core.FlagDefault | core.FlagNewer},
+			{[]string{"-e"}, core.FlagDefault | core.FlagExpired}, {[]string{"-a"}, core.FlagDefault | core.FlagAll},
+			{[]string{"-a", "-m=false", "-c=false"}, core.FlagAll}, {[]string{"-o", "-m=false", "-c=false"}, core.FlagNewer}, {[]string{"-e", "--generate-missing=false", "--generate-changed=false"}, core.FlagExpired},
+			{[]string{"-c=false"}, core.FlagMissing}, {[]string{"-m=false"}, core.FlagChanged}, {[]string{"-o", "-c"}, core.FlagDefault | core.FlagNewer}, {[]string{"-o", "-e", "-c=false"}, core.FlagMissing | core.FlagNewer | core.FlagExpired}}
+		i := 0
+		for _, sc := range []string{"", "edit", "edit-root-add-leaf", "sec1-key", "root-pem-deleted", "root-cert-stripped", "edit-old-mtime"} {
+			for _, f := range sets {
+				for _, ans := range []string{"y\n", "n\n"} {
+					i++
+					if !r.Mine(i) {
+						continue
+					}
+					c := c10CLI{Args: f.args, Flags: f.flags, Answer: ans, Scenario: sc}
+					if sc == "edit" {
+						c.Scenario, c.Edit = "", true
+					}
+					c.W.Ents = []core.Entity{{File: "root.yaml", Subject: []core.RDN{{Key: "CN", Value: "CLI Root"}}},
+						{File: "sub/leaf.yaml", Subject: []core.RDN{{Key: "CN", Value: "CLI Leaf"}}, Issuer: "root"}}
+					r.Report("cli", c, wrapCLI(c))
+				}
+			}
+		}
+	}
+	core.Rapid(r, "cli", r.Pick(160, 6000), genCLI, wrapCLI)
 	_ = filepath.Join
 }
